@@ -55,7 +55,7 @@ func runC16(t *rapid.T) {
 	latest := map[string]string{} // prefix -> latest generated key (since the beginning)
 	offset := int64(-1)
 	ts := uint64(1_000_000)
-	multiPut, deletedMax, raced := false, false, false
+	multiPut, deletedMax, raced, hugeSeen := false, false, false, false
 	seqPuts := map[string]int{}
 	logf := func(f string, a ...any) { hist = append(hist, fmt.Sprintf(f, a...)) }
 
@@ -109,6 +109,7 @@ func runC16(t *rapid.T) {
 		return generated
 	}
 
+	hugeUsed := map[string]bool{}
 	seqRequest := func(t *rapid.T) *proto.WriteRequest {
 		req := &proto.WriteRequest{}
 		n := rapid.IntRange(1, 3).Draw(t, "nSeqPuts")
@@ -136,6 +137,15 @@ func runC16(t *rapid.T) {
 				}
 				if rapid.IntRange(0, 20).Draw(t, "bigDelta") == 0 {
 					d = 1 << 40
+				}
+				// one jump per prefix and level to the region where the suffix needs 19-20 significant digits and
+				// crosses 2^63 (signed/unsigned confusion, width of the zero padding); only one, so that the sum
+				// stays below 2^64 - sequence values are 64-bit and a sum beyond that is outside the domain
+				hk := fmt.Sprintf("%s/%d", prefix, j)
+				if !hugeUsed[hk] && rapid.IntRange(0, 11).Draw(t, "hugeDelta") == 0 {
+					hugeUsed[hk] = true
+					hugeSeen = true
+					d = rapid.SampledFrom([]uint64{1 << 62, 1<<63 - 2, 1<<63 - 1, 1 << 63, 1<<63 + 1, 9999999999999999999, 10000000000000000000}).Draw(t, "huge")
 				}
 				p.SequenceKeyDelta = append(p.SequenceKeyDelta, d)
 			}
@@ -287,7 +297,7 @@ func runC16(t *rapid.T) {
 		}
 	}
 	var labels []string
-	for n, on := range map[string]bool{"multi_put_one_prefix": multiPut, "deleted_max": deletedMax, "subscribe_during_write": raced, "subscribers": len(subs) > 0} {
+	for n, on := range map[string]bool{"multi_put_one_prefix": multiPut, "deleted_max": deletedMax, "subscribe_during_write": raced, "subscribers": len(subs) > 0, "suffix_beyond_2^62": hugeSeen} {
 		if on {
 			labels = append(labels, n)
 		}
